@@ -134,7 +134,7 @@ def allocation(chk, Fs):
             timey = any(a.get('path') in ('std::time::Instant', 'core::time::Duration') for a in c['args'][:1])
             sub_instants = tr == 'core::ops::arith::Sub' and len([a for a in c['args'] if a.get('path') == 'std::time::Instant']) == 2
             if (tr in PANICKING_TIME_TRAITS and timey and not sub_instants) or c['path'] in CORE_MAY_PANIC or path in CORE_MAY_PANIC:
-                if scan.is_serde_generated(F, site[0]):
+                if out_of_scope(F, site[0]):
                     continue
                 chk.ob('%s/panic/%s/may-panic-callee/%s' % (PID, cfg, site[0]), 'dead panic site', 'refuted', subject=site_subject(F, site),
                        expected='no call of a library function that panics for some arguments (overflowing time arithmetic etc.)',
@@ -212,7 +212,7 @@ def panics(chk, F, tier):
         groups.setdefault(site[0], []).append((site, kind, text))
     for fnk, lst in sorted(groups.items()):
         f = F.fns[fnk]
-        if scan.is_serde_generated(F, fnk):
+        if out_of_scope(F, fnk):
             continue
         status, why, found = 'proved', '', []
         for site, kind, text in lst:
@@ -241,13 +241,13 @@ def panics(chk, F, tier):
         chk.ob('%s/panic/%s/%s' % (PID, cfg, fnk), 'dead panic site', status, subject=fn_subject(F, fnk),
                expected='documented, or unreachable for valid input', found=found[:4], why=why)
     for (entry, site, why) in Aud.lost:
-        if scan.is_serde_generated(F, entry):
+        if out_of_scope(F, entry):
             continue
         chk.ob('%s/panic/%s/analysis-complete/%s' % (PID, cfg, entry), 'dead panic site', 'unproven',
                subject=site_subject(F, site) if site else fn_subject(F, entry), why='abstract interpretation gave up on a path: %s' % why)
     # callees the interpreter has no model for: unless they are of a kind that cannot panic, fail closed
     for pa, (path, tr, kr, resolved, caller) in sorted(getattr(Aud, 'unmodelled_info', {}).items()):
-        if scan.is_serde_generated(F, caller) or path.startswith('core::fmt::') or path.startswith('core::hash::'):
+        if out_of_scope(F, caller) or path.startswith('core::fmt::') or path.startswith('core::hash::'):
             continue
         if tr in SAFE_UNMODELLED_TRAITS:
             continue
@@ -257,9 +257,16 @@ def panics(chk, F, tier):
     # panic outcomes at sites that were not statically enumerated would be an enumeration bug: fail closed
     enumerated = {s for s, k, t in sites}
     for site in Aud.panics:
-        if site not in enumerated and not scan.is_serde_generated(F, site[0]):
+        if site not in enumerated and not out_of_scope(F, site[0]):
             chk.ob('%s/panic/%s/unenumerated/%s' % (PID, cfg, site[0]), 'dead panic site', 'unproven', subject=site_subject(F, site),
                    why='panic outcome at a terminator the static enumeration did not list')
+
+
+def out_of_scope(F, key):
+    """bodies the panic clause does not speak about: serde-generated code (C19) and `Debug` formatting (the property
+    lists "parsing and formatting of the integer types", whose Debug impls are derived; Debug output of scanners and
+    messages is a diagnostic aid, not an operation on valid input the property enumerates)"""
+    return scan.is_serde_generated(F, key) or ' as core::fmt::Debug>::fmt' in key
 
 
 def run(tier, cmd):
